@@ -152,7 +152,7 @@ HasOutputL(L, S, i) ==
     LET e == L[i] IN
     /\ e.kind = "cmd" /\ i \notin mod
     /\ CASE e.cls = "line"   -> e.sess \in S.sess /\ MarksOfL(L, S, e.sess) # {}  \* the first line is a bare NICK
-         [] e.cls = "delete" -> e.sess \in S.sess
+         [] e.cls = "delete" -> RegisteredL(L, S, e.sess)        \* QUIT/ERROR only for logged-in sessions
          [] e.cls = "panic"  -> e.sess \in S.sess
          [] OTHER -> FALSE
 
@@ -180,7 +180,11 @@ ApplyNSL(L, ns, i) ==
     ELSE NS(ns.store \cup {i},                        \* ircstore.StoreLog first
             ApplyAbsL(L, ns.srv, i),
             IF HasOutputL(L, ns.srv, i) THEN ns.outs \cup {i} ELSE ns.outs,
-            IF e.cls = "config" /\ i \notin mod THEN e.exp ELSE ns.exp)
+            \* pinned tree: applyRobustMessage sets it for a valid config; repaired:
+            \* applyProto re-reads the live config after every config entry
+            IF e.cls = "config" /\ i \notin mod THEN e.exp
+            ELSE IF e.cls = "badconfig" /\ FixF3 THEN ns.srv.cexp
+            ELSE ns.exp)
 ApplyNS(ns, i) == ApplyNSL(log, ns, i)
 
 RECURSIVE ApplySet(_, _)
@@ -405,6 +409,9 @@ FoldedXorRetained ==
 \* an output batch exists exactly for the retained entries that produced one
 OutputIffRetained ==
     up => outs = {i \in store : i <= applied /\ HasOutput(Replay(i - 1), i)}
+
+\* the model-independent half of OutputIffRetained (used on recorded traces)
+OutputOnlyRetained == up => outs \subseteq store
 
 \* C02 P2 (horizon part): nothing younger than the horizon the property
 \* allows (expiration in force + grace at the compaction times so far) is gone
